@@ -18,7 +18,7 @@ CHECKS = {
   ref="6/C17"),
  "C16": dict(
   technique="round-trip property testing with rapid (annotation/JSON5 AST -> printer -> go/parser -> NewAnnotationHolder -> compare with AST) plus invariant checking over arbitrary comment text (rapid skeleton-and-damage generator; native go fuzzing in the thorough tier)",
-  text="Two parts. Text part: arbitrary comment lines (skeleton '@Name(value, {props}) description' filled with token soup and well-formed JSON5, then damaged; raw bytes from the native fuzzer in the thorough tier) are parsed and the result must satisfy the relations the statement implies for every input: each line is one attribute or one free-text line, attributes come from lines starting with their name and in source order, a value is the text its range covers, properties are what the covered text decodes to as a single JSON5 value (nothing dropped), a description is the tail of its line. Grammar part: comment blocks are drawn as ASTs (annotation name/value/JSON5 property tree/description, free text, near-miss lines, malformed JSON5), printed by an independent JSON5 printer, embedded in a real Go file and parsed back through go/parser, gast.MapDocListToCommentBlock and annotations.NewAnnotationHolder; the AST is the oracle for attributes, order, free text, entity description, error on malformed JSON5 and the value/properties ranges. Sampling.",
+  text="Three parts. Sites part: one annotation line with a malformed JSON5 object (and a well-formed control) is inserted into the doc comment of each kind of declaration the pipeline reads comments from (controller, route, struct, struct field, alias, enum type, first/last enum constant) of a well-linked project and the real pipeline must return an error for the malformed one; every site x malformation is swept on every run. Text part: arbitrary comment lines (skeleton '@Name(value, {props}) description' filled with token soup and well-formed JSON5, then damaged; raw bytes from the native fuzzer in the thorough tier) are parsed and the result must satisfy the relations the statement implies for every input: each line is one attribute or one free-text line, attributes come from lines starting with their name and in source order, a value is the text its range covers, properties are what the covered text decodes to as a single JSON5 value (nothing dropped), a description is the tail of its line. Grammar part: comment blocks are drawn as ASTs (annotation name/value/JSON5 property tree/description, free text, near-miss lines, malformed JSON5), printed by an independent JSON5 printer, embedded in a real Go file and parsed back through go/parser, gast.MapDocListToCommentBlock and annotations.NewAnnotationHolder; the AST is the oracle for attributes, order, free text, entity description, error on malformed JSON5 and the value/properties ranges. Sampling.",
   note="Trusts: rapid, go/parser, the harness's JSON5 printer and number semantics; generator preconditions listed in the evidence assumptions (no blank before the separator comma, near-misses limited to unambiguous non-forms); one known finding (F-C16-1) excluded by construction and replayed as witness.",
   ref="6/C16"),
  "C14": dict(
